@@ -6,7 +6,7 @@ from .core import fr, frs, dhex
 from .runner import Case
 from . import props_mixed
 
-GROUP = dict(name='alg', sources=['h_alg.cpp'], repo_sources=['util/Pauli.C'], driver='alg', flags=('-pthread',))
+GROUP = dict(name='alg', sources=['h_alg.cpp'], repo_sources=['util/Pauli.C'], driver='alg', flags=('-pthread',), thread_mode=True)
 
 
 def cxs(g, n): return g.rats(2 * n)
